@@ -434,17 +434,9 @@ func genStringHash() string {
 	dr := shRecvName(del)
 	renum := ".unknown " + leanStr("no re-numbering loop found")
 	erases, cut := false, false
-	ast.Inspect(del.Body, func(n ast.Node) bool {
-		is, ok := n.(*ast.IfStmt)
-		if !ok || is.Init == nil {
-			return true
-		}
-		init := src(is.Init)
-		if !(init == "p, ok := index[key]" || init == "p, ok := "+dr+".index[key]") || src(is.Cond) != "ok" {
-			return true
-		}
+	scanHit := func(hit []ast.Stmt) {
 		seenLoop := false
-		for i, s := range is.Body.List {
+		for i, s := range hit {
 			ss := src(s)
 			if (ss == "delete("+dr+".index, key)" || ss == "delete(index, key)") && !seenLoop {
 				erases = true
@@ -463,17 +455,17 @@ func genStringHash() string {
 					}
 				}
 			}
-			if i+2 < len(is.Body.List) && (sameSrc(is.Body.List[i:i+3],
+			if i+2 < len(hit) && (sameSrc(hit[i:i+3],
 				"ne := make([]stringEntry, len("+dr+".entries)-1)",
 				"for $i, $e := range "+dr+".entries { if $i < p { ne[$i] = $e } else if $i > p { ne[$i-1] = $e } }",
-				dr+".entries = ne") || sameSrc(is.Body.List[i:i+3],
+				dr+".entries = ne") || sameSrc(hit[i:i+3],
 				"ne := make([]stringEntry, 0, len("+dr+".entries)-1)",
 				"for $i, $e := range "+dr+".entries { if $i != p { ne = append(ne, $e) } }",
 				dr+".entries = ne")) {
 				cut = true
 			}
 			// the same cut written with two copies
-			if i+3 < len(is.Body.List) && sameSrc(is.Body.List[i:i+4],
+			if i+3 < len(hit) && sameSrc(hit[i:i+4],
 				"ne := make([]stringEntry, len("+dr+".entries)-1)",
 				"copy(ne, "+dr+".entries[:p])",
 				"copy(ne[p:], "+dr+".entries[p+1:])",
@@ -481,8 +473,29 @@ func genStringHash() string {
 				cut = true
 			}
 		}
+	}
+	isLookup := func(x string) bool { return x == "p, ok := index[key]" || x == "p, ok := "+dr+".index[key]" }
+	ast.Inspect(del.Body, func(n ast.Node) bool {
+		is, ok := n.(*ast.IfStmt)
+		if !ok || is.Init == nil {
+			return true
+		}
+		if !isLookup(src(is.Init)) || src(is.Cond) != "ok" {
+			return true
+		}
+		scanHit(is.Body.List)
 		return false
 	})
+	// the early-return form of the same method: `p, ok := index[key]; if !ok { return … }; <the hit statements>`
+	for j := 0; j+1 < len(del.Body.List); j++ {
+		if as, ok := del.Body.List[j].(*ast.AssignStmt); ok && isLookup(src(as)) {
+			if is, ok := del.Body.List[j+1].(*ast.IfStmt); ok && is.Init == nil && is.Else == nil && src(is.Cond) == "!ok" && len(is.Body.List) == 1 {
+				if _, ok := is.Body.List[0].(*ast.ReturnStmt); ok {
+					scanHit(del.Body.List[j+2:])
+				}
+			}
+		}
+	}
 
 	put := need("Put")
 	pr := shRecvName(put)
